@@ -329,35 +329,6 @@ def diagnose(e):
     return "snapshot"
 
 
-def leak_origins(ctx, exe, texts, sids):
-    """Second pass for executions whose free left heap behind: LeakSanitizer names the allocation sites
-    (first frame inside the repository's sources); used for the finding key."""
-    out = {}
-    if not sids:
-        return out
-    from vlib.replay import ASAN_OPTS
-    tag = "leak"
-    run_scripts(exe, [], [texts[s - 1] for s in sids], ctx.rundir, jobs=1, tag=tag,
-                env={"VH_WATCHDOG": "120", "VH_LEAKCHECK": "1", "ASAN_OPTIONS": ASAN_OPTS.replace("detect_leaks=0", "detect_leaks=1")})
-    err = ""
-    for fn in os.listdir(ctx.rundir):
-        if fn.startswith("stderr-%s-" % tag):
-            err += open(os.path.join(ctx.rundir, fn), errors="replace").read()
-            os.unlink(os.path.join(ctx.rundir, fn))
-    for m in re.finditer(r"LEAKCHECK (\d+)\n(.*?)LEAKCHECK-END \1\n", err, re.S):
-        sid = int(m.group(1))
-        fr = set()
-        for blk in re.split(r"(?:Direct|Indirect) leak of", m.group(2))[1:]:
-            for ln in blk.splitlines():
-                f = re.match(r"\s+#\d+ 0x[0-9a-f]+ in (\S+) (\S+)", ln)
-                if f and "/src/" in f.group(2) and "/harness/" not in f.group(2) and "compiler-rt" not in f.group(2) and not f.group(1).startswith("spiftool_get_word"):
-                    fr.add(f.group(1))
-                    break
-        if fr:
-            out.setdefault(sid, "+".join(sorted(fr)))
-    return out
-
-
 def crash_key(fam, f):
     fam = re.sub(r"-\d+$", "", fam)
     if f.kind in ("crash", "hang", "exit"):
@@ -405,7 +376,8 @@ def drive(ctx, exe, scripts, tag):
                            "d": st["snap"]["cs_idx"], "fds": st["fds"]}}
                 nv = st["snap"]["nvars"]
             elif op == "free":
-                e = {"op": "free", "heap": int(ret), "snap": untok(state)}
+                st = untok(state)
+                e = {"op": "free", "heap": int(ret), "snap": st["snap"], "leaks": sorted(str(x) for x in st["leaks"])}
                 nv = 0
             elif op == "temp":
                 if state == "-":
@@ -442,8 +414,6 @@ def drive(ctx, exe, scripts, tag):
         if not res.ok or not m:
             raise Broken("ConfLifeTrace run failed without a verdict:\n%s" % "\n".join(res.tail[-25:]))
         rej = [int(x) for x in re.findall(r"\d+", m.group(1))]
-        origins = leak_origins(ctx, exe, texts, sorted(set(index[pos + r - 1][0] for r in rej
-                                                          if part[r - 1]["op"] == "free" and part[r - 1]["heap"] != 0)))
         for r in rej:
             e = part[r - 1]
             sid, step = index[pos + r - 1]
@@ -451,7 +421,7 @@ def drive(ctx, exe, scripts, tag):
             why = diagnose(e)
             nrej += 1
             # one finding per allocation site for heap left behind, so that a new leak is not hidden behind a known one
-            whys = ["heap-not-released@" + o for o in origins.get(sid, "?").split("+")] if why == "heap-not-released" else [why]
+            whys = ["heap-not-released@" + o for o in (e.get("leaks") or ["?"])] if why == "heap-not-released" else [why]
             for w in whys:
                 ctx.report("trace-rejected %s [%s] %s" % (e["op"], re.sub(r"-\d+$", "", s.fam), w),
                            "TLC: the recorded %s event of a %s script is not a step of ConfLife (%s): %s" % (e["op"], s.fam, w, json.dumps(e)[:500]),
@@ -468,8 +438,8 @@ def drive(ctx, exe, scripts, tag):
     ctx.add("trace_events_validated", len(events))
     ctx.add("trace_events_rejected", nrej)
     ctx.add("traces_validated_against_impl", len(by))
-    ctx.add("evaluations", nt)
-    ctx.cov.setdefault("driver_runs", []).append({"family": tag, "scripts": len(scripts), "steps": nt, "crashed_or_hung": len(fails),
+    ctx.add("evaluations", len(recs))
+    ctx.cov.setdefault("driver_runs", []).append({"family": tag, "scripts": len(scripts), "steps": len(recs), "crashed_or_hung": len(fails),
                                                  "events_validated": len(events), "events_rejected": nrej, "find_calls": nfind,
                                                  "wall_s": round(time.time() - t0, 1)})
     return events
